@@ -102,7 +102,7 @@ def run(ctx, rep):
     ref = load_ref()
     b = ref["brine"]
     m = c04.Model(ctx)
-    K.share(ctx, rep, "c04", lambda o: o.rule in ("R04.1", "R04.2"), "R19.6", floor=8)
+    K.share(ctx, rep, "c04", lambda o: o.rule in ("R04.1", "R04.2", "R04.3", "R04.6"), "R19.6", floor=8)
     _late_shares(ctx, rep)
     from . import hygiene as H0
     H0.private_state(ctx, rep, "R19.3", "rpyc.core.channel.Channel")
